@@ -869,6 +869,10 @@ class AsyncFIXConnection:
             elif msg.msg_type == FMsg.SEQUENCERESET:
                 seqreset_applied = await self._process_seqreset(msg)
             elif msg.msg_type == FMsg.LOGOUT:
+                if int(msg[FTag.MsgSeqNum]) == self._session.next_num_in:
+                    # Logout consumes MsgSeqNum as any other message, count / journal
+                    #  it before the connection is closed
+                    await self._finalize_message(msg, raw_msg)
                 await self._process_logout(msg)
 
             if self._connection_state <= ConnectionState.DISCONNECTED_BROKEN_CONN:
